@@ -617,7 +617,7 @@ pub fn c12(args: &Args) -> Report {
         let mut rng = hist_rng(args.seed(), 0xC12, i);
         let mut p = Pools::basic();
         p.authors = vec![author(0), author_twin(0), author(1)];
-        p.kinds = vec![1, 0, 10002, 30023, 30023, 7];
+        p.kinds = vec![1, 0, 10002, 30023, 30023, 7, 62];
         p.times = if i % 5 == 3 { vec![100, 101, 4_102_444_800, u64::MAX - 1, u64::MAX] } else { vec![100, 101, 102, 103] };
         // a d value too long for an address marker key: the request fails inside LMDB after earlier tags took effect
         p.dvals = vec!["".into(), "x".into(), "y".into(), long_d(480, "big")];
@@ -870,8 +870,107 @@ pub fn c17(args: &Args) -> Report {
 
 // ------------------------------------------------------------------------------------------ C18
 
+/// Vanish on a large scale: one key with several hundred authored events and several hundred gift-wraps addressed
+/// to it (more than any plausible internal batch or result limit), next to bystanders. After the vanish none of the
+/// targets may be retrievable by id or by query, all bystanders must be, and the index counts must agree.
+fn c18_bulk_vanish(rep: &mut Report, args: &Args) {
+    use pocket_db::{ScreenResult, Store};
+    use pocket_types::Id;
+    let n_auth = if args.thorough() { 2600usize } else { 700 };
+    let n_wrap = if args.thorough() { 1300usize } else { 650 };
+    let dir = workdir().join(format!("c18_bulk_{}", args.seed()));
+    let _ = std::fs::remove_dir_all(&dir);
+    if std::fs::create_dir_all(&dir).is_err() {
+        return;
+    }
+    let store = match Store::new(&dir, vec![]) {
+        Ok(s) => s,
+        Err(e) => {
+            rep.inconclusive.push(format!("bulk vanish: open failed: {e}"));
+            return;
+        }
+    };
+    let mut rng = hist_rng(args.seed(), 0xC18B, 0);
+    let victim = author(0);
+    let other = author(1);
+    let mk = |rng: &mut Rng, pk: Id32, kind: u16, t: u64, tags: Vec<Vec<String>>| Ev::new(SemEvent { id: rng.arr32(), pubkey: pk, sig: [0x51; 64], kind, created_at: t, tags, content: String::new() }).unwrap();
+    let mut targets: Vec<Id32> = vec![];
+    let mut bystanders: Vec<Id32> = vec![];
+    let mut put = |e: &Rc<Ev>, list: &mut Vec<Id32>| {
+        if store.store_event(&pocket_types::OwnedEvent(e.bytes.clone())).is_ok() {
+            list.push(e.sem.id);
+        }
+    };
+    for k in 0..n_auth {
+        let e = mk(&mut rng, victim, if k % 50 == 7 { 7 } else { 1 }, 1000 + k as u64, vec![vec!["t".into(), "bulk".into()]]);
+        put(&e, &mut targets);
+        if k % 100 == 0 {
+            let b = mk(&mut rng, other, 1, 1000 + k as u64, vec![vec!["t".into(), "bulk".into()], vec!["p".into(), hex(&victim)]]);
+            put(&b, &mut bystanders); // mentions the key, but is no gift-wrap
+        }
+    }
+    for k in 0..n_wrap {
+        let w = mk(&mut rng, other, 1059, 5000 + k as u64, vec![vec!["p".into(), hex(&victim)]]);
+        put(&w, &mut targets);
+        if k % 100 == 0 {
+            let b = mk(&mut rng, other, 1059, 5000 + k as u64, vec![vec!["p".into(), hex(&author(2))]]);
+            put(&b, &mut bystanders); // a gift-wrap for someone else
+        }
+    }
+    let req = SemEvent { id: rng.arr32(), pubkey: victim, sig: [0; 64], kind: 62, created_at: 9000, tags: vec![], content: String::new() }.to_owned().unwrap();
+    let rp = json!({"kind":"bulk-vanish","seed":args.seed(),"authored":n_auth,"giftwraps":n_wrap});
+    rep.eval(fnv(format!("bulk{}{}", n_auth, n_wrap).as_bytes()), true);
+    match catch(|| store.vanish(&req)) {
+        Ok(Ok(())) => {}
+        Ok(Err(e)) => {
+            rep.finding("bulk-vanish-failed", &format!("{e}"), rp.clone());
+        }
+        Err(p) => {
+            rep.finding(&format!("bulk-vanish-panic@{}", p.location), &p.message, rp.clone());
+        }
+    }
+    let still: Vec<&Id32> = targets.iter().filter(|id| store.has_event(Id::from_bytes(**id)).unwrap_or(true)).collect();
+    if !still.is_empty() {
+        rep.finding("bulk-vanish-left-targets", &format!("{} of {} targeted events ({} authored, {} gift-wraps) are still retrievable by id after vanish, e.g. {}", still.len(), targets.len(), n_auth, n_wrap, hex(&still[0][..4])), rp.clone());
+    }
+    let gone: Vec<&Id32> = bystanders.iter().filter(|id| !store.has_event(Id::from_bytes(**id)).unwrap_or(false)).collect();
+    if !gone.is_empty() {
+        rep.finding("bulk-vanish-removed-bystanders", &format!("{} of {} bystander events are gone", gone.len(), bystanders.len()), rp.clone());
+    }
+    for (nm, f) in [
+        ("author", SemFilter { authors: vec![victim], ..SemFilter::empty() }),
+        ("tag", SemFilter { tags: vec![("t".into(), vec!["bulk".into()])], authors: vec![victim], ..SemFilter::empty() }),
+        ("giftwraps", SemFilter { kinds: vec![1059], tags: vec![("p".into(), vec![hex(&victim)])], ..SemFilter::empty() }),
+    ] {
+        if let Ok(o) = f.to_owned() {
+            match store.find_events(&o, true, 0, 0, |_| ScreenResult::Match) {
+                Ok((evs, _)) => {
+                    if !evs.is_empty() {
+                        rep.finding("bulk-vanish-left-targets", &format!("query by {nm} still returns {} events after vanish", evs.len()), rp.clone());
+                    }
+                }
+                Err(e) => rep.finding("bulk-vanish-query-failed", &format!("{nm}: {e}"), rp.clone()),
+            }
+        }
+    }
+    if let Ok(st) = store.stats() {
+        let want = bystanders.len() as u64;
+        let ix = st.index_stats;
+        if ix.i_index_entries != want || ix.ac_index_entries != want {
+            rep.finding("bulk-vanish-index-counts", &format!("id index {} / author index {} entries, {} events should remain", ix.i_index_entries, ix.ac_index_entries, want), rp.clone());
+        }
+    }
+    rep.count_n("bulk_vanish_targets", targets.len() as u64);
+    rep.count_n("bulk_vanish_bystanders", bystanders.len() as u64);
+    let _ = store.verif_close();
+    let _ = std::fs::remove_dir_all(&dir);
+}
+
 pub fn c18(args: &Args) -> Report {
     let mut rep = Report::new("C18", &args.leg(), &args.tier(), args.seed());
+    if only_index(args).is_none() {
+        c18_bulk_vanish(&mut rep, args);
+    }
     let n = if args.thorough() { 5000 } else { 250 };
     for i in 0..n {
         if let Some(x) = only_index(args) {
